@@ -11,6 +11,7 @@ for d in "$ROOT"/seeded/*/; do
   if ! git -C /repo apply --check "$d/patch.diff" 2>/dev/null; then echo "SKIP $id (patch no longer applies to the current tree)"; continue; fi
   git -C /repo apply "$d/patch.diff"
   tier=$(python3 -c "import json;print(json.load(open('$d/meta.json')).get('tier','quick'))")
+  if [ "$tier" = missed ]; then echo "KNOWN-MISS $id (recorded as not caught, see its meta.json)"; git -C /repo checkout -- .; continue; fi
   out=$("$ROOT/bin/check" "$prop" "$tier" 2>&1); rc=$?
   git -C /repo checkout -- .
   runs=$(echo "$out" | grep -oE "runs=[0-9]+" | head -1)
